@@ -233,3 +233,12 @@ Definition xkind_name (x : xkind) : string :=
 Definition spec_roundtrip_into (x : xkind) (c : span_ctx) (nkeys : nat) (o : option xobs) (same : bool) (intact : Z) : list tok :=
   spec_roundtrip_nm (xkind_name x) c o same ++
   check (Z.eqb intact (Z.of_nat nkeys)) "extract_into:unrelated_values_lost".
+
+(* concurrent Inject (scheduled cases): every thread injects its own context into its own carrier; afterwards each carrier is
+   extracted on its own.  Each carrier must round-trip its own thread's identity, whatever the interleaving. *)
+Fixpoint spec_pinj (k : prop_kind) (cs : list span_ctx) (os : list (option xobs * bool)) : list tok :=
+  match cs, os with
+  | [], [] => []
+  | c :: cs', (o, same) :: os' => spec_roundtrip_nm ("concurrent_" ++ kind_name k) c o same ++ spec_pinj k cs' os'
+  | _, _ => fail "obs:unparsable"
+  end.
